@@ -59,14 +59,19 @@ def check(repo, tier):
         return Finding('C18', rule, fn.where, what, msg, fn.file, fn.node.lineno)
     mods = {MOD, 'utils'}
     big = tier == 'thorough'
-    for variant, npairs, (ef, st), nmodes, thr in itertools.product(('amuset_hosvd', 'amuset_hocur'), (1, 2, 3) if big else (1, 2), ((False, False), (True, False), (False, True), (True, True)),
-                                                                 (1, 2, 3) if big else (2,), (1e-2, 0.0, 1e-5)):
+    rm_cuts = {}          # (variant, HOSVD threshold) -> cut values used on the x-restricted last core (sibling cross-check below)
+    grid = [g_ + (False,) for g_ in itertools.product(('amuset_hosvd', 'amuset_hocur'), (1, 2, 3) if big else (1, 2), ((False, False), (True, False), (False, True), (True, True)),
+                                                        (1, 2, 3) if big else (2,), (1e-2, 0.0, 1e-5))]
+    # one index array object used in several pairs (one set x with several time-lagged sets y; forward / backward pairs)
+    grid += [('amuset_hosvd', 2, (False, False), 2, 1e-2, True), ('amuset_hocur', 2, (False, False), 2, 1e-2, True)]
+    for variant, npairs, (ef, st), nmodes, thr, shared in grid:
         if variant == 'amuset_hocur' and (ef or st or thr != 1e-2):
             continue
         if thr != 1e-2 and (npairs > 1 or ef or st or (not big and thr == 1e-5)):
             continue
         entry = f'{MOD}.{variant}'
-        scen = f'{variant}({npairs} index-set pair(s)' + (f', ef_tf={ef}, st_tf={st}' if variant == 'amuset_hosvd' else '') + (f', {nmodes} modes' if nmodes != 2 else '') + (f', threshold={thr}' if thr != 1e-2 else '') + ')'
+        scen = f'{variant}({npairs} index-set pair(s)' + (f', ef_tf={ef}, st_tf={st}' if variant == 'amuset_hosvd' else '') + (f', {nmodes} modes' if nmodes != 2 else '') + (f', threshold={thr}' if thr != 1e-2 else '') + \
+            (', the same index array object as x of both pairs and as y of the second' if shared else '') + ')'
         intercept = {}
         holder = {}
         if variant == 'amuset_hocur':
@@ -86,6 +91,9 @@ def check(repo, tier):
             basis = [[BasisFn(i, k) for k in range(3 - (i % 2))] for i in range(nmodes)]
             xs = [Arr([sc.atom(f'mx{k}')], None, 'int', None, {'role': ('x_indices', k)}, f'x_indices[{k}]') for k in range(npairs)]
             ys = [Arr([xs[k].shape[0]], None, 'int', None, {'role': ('y_indices', k)}, f'y_indices[{k}]') for k in range(npairs)]
+            if shared:
+                xs = [xs[0], xs[0]]
+                ys = [ys[0], xs[0]]
             sc.inputs = (xs, ys)
             xa, ya = (xs, ys) if npairs > 1 else (xs[0], ys[0])
             if variant == 'amuset_hosvd':
@@ -96,8 +104,13 @@ def check(repo, tier):
                 run.oblige('D2', (entry, scen), False)
                 l2rules.raised_finding(run, 'C18', 'D2', repo, entry, scen, exc)
                 continue
+            l2rules.stale_obligation(run, 'C18', 'D1', repo, sc, entry, scen, mods)
             l2rules.relative_cut_obligations(run, 'C18', 'D3', repo, sc, scen, mods, expected=({thr} if variant == 'amuset_hosvd' else None), only_fns={'truncated_svd', 'amuset_hosvd'})
             l2rules.whole_matrix_call_obligations(run, 'C18', 'D2', repo, sc, scen, mods | {'data_driven.transform'})
+            for e in sc.events('where'):
+                ex_ = e['cond'].tags.get('expr') if isinstance(e.get('cond'), Arr) else None
+                if ex_ and ex_[0] in ('gt', 'ge') and e.get('fn') is not None and e['fn'].mod == MOD and e['fn'].name != variant and isinstance(ex_[1][1], (int, float)):
+                    rm_cuts.setdefault((variant, thr), set()).add(float(ex_[1][1]))
             # the caller's index sets select snapshots as NumPy indexing does (an entry -1 is the last snapshot)
             for e in sc.events('index-mode'):
                 if e['mode'] == 'clip' and l2rules.in_modules(e, mods):
@@ -127,7 +140,7 @@ def check(repo, tier):
                 last = t._attrs['cores'][-1]
                 anc = A.ancestors([last])
                 roles = {a.tags.get('role') for a in anc.values() if isinstance(a.tags.get('role'), tuple)}
-                want = {('x_indices', k), ('y_indices', k)}
+                want = {xs[k].tags['role'], ys[k].tags['role']}          # (one array object may serve in several pairs)
                 if roles != want:
                     bad.append(f'the last core of eigentensor {k} depends on the index sets {sorted(roles)} instead of {sorted(want)}')
                 # structure: U diag(1/s) W
@@ -224,6 +237,15 @@ def check(repo, tier):
             run.oblige('D2', (entry, scen, 'order'), not bad)
             if bad:
                 run.add(F(entry, 'D2', 'ordering by distance to 1', f'{scen}: ' + '; '.join(sorted(set(bad))[:2])))
+    # D3 sibling cross-check: the two drivers hand the x-/y-restricted last core to one shared routine; the cut it applies to the singular values of the x-part is the
+    # same number whichever driver calls it and whatever threshold the HOSVD used ("matrix EDMD with the same relative cut" is one reference for both)
+    allc = set().union(*rm_cuts.values()) if rm_cuts else set()
+    if rm_cuts and {v_ for v_, _t in rm_cuts} == {'amuset_hosvd', 'amuset_hocur'}:
+        run.oblige('D3', ('reduced-matrix cut', 'siblings agree'), len(allc) == 1)
+        if len(allc) > 1:
+            per = {f'{v_}(threshold={t_})': sorted(c_) for (v_, t_), c_ in sorted(rm_cuts.items())}
+            run.add(F(f'{MOD}.amuset_hosvd', 'D3', 'cut of the reduced matrix differs between the drivers', f'the singular values of the x-restricted last core are cut at {per}: the HOSVD and HOCUR '
+                      f'drivers (and calls with different HOSVD thresholds) no longer use one and the same relative cut for the reduced matrix'))
     l2rules.frame_obligations(run, 'C18', 'D1', repo, [f'{MOD}.amuset_hosvd', f'{MOD}.amuset_hocur'])
     from . import own, p_c06
     an = own.analyse(repo)
